@@ -469,6 +469,6 @@ func runCase(c Case, ctx *hx.Ctx) *hx.Failure {
 	return nil
 }
 
-func TestPropEDNS(t *testing.T) { hx.Check(t, 8000, genCase, runCase) }
+func TestPropEDNS(t *testing.T) { hx.Check(t, 16000, genCase, runCase) }
 
 func TestReplay(t *testing.T) { hx.Replay(t, "TestPropEDNS", 5, runCase) }
